@@ -217,3 +217,203 @@ Example compose_hypotheses_satisfiable :
   (forall pre t a b, ex_entitled pre t a -> ex_entitled pre t b -> a = b) /\
   (forall pre t t' a b, ex_entitled pre t a -> ex_entitled pre t' b -> a <> b -> t < t' -> t + 1 <= t').
 Proof. exact compose_example. Qed.
+
+(* ========================================================================================== *)
+(* THE COMPOSED N-STATION MODEL (Model/Multi.v, Proofs/MultiProofs.v).
+   `multi_run A ops M s0 sc`: N copies of the single-station model Fdl.poll (any N, each with its own
+   parameters and any number of applications `ops`), on a shared medium M, driven by a schedule sc (list of
+   (station index, set_online | set_offline | poll at time now)).  M is an ARBITRARY function
+   history -> station index -> time -> (new receive bytes, transmitter busy): every theorem below is
+   universally quantified over it - a medium that loses, corrupts, delays, duplicates or invents bytes
+   included; `medium_bytes M` only says that what it delivers are octets.  `multi_init cfg` creates the
+   stations (FdlActiveStation::new) from cfg : list (parameters, applications).  Every station keeps a log
+   (st_log: inputs, state before / after, outputs of every call); `transcript st` is the event list the
+   single-station check builds (Model/FdlOracle.v).
+   Schedule hypotheses: `sched_time_ok sc` - poll times in [0, 2^62) - for C05; `sched_ok (fun _ => 0) sc` -
+   per station the poll times are > 0, < 2^62 and strictly increasing (no relation between different
+   stations' clocks is asked for) - for the monitors.  `cfg_valid cfg`: every parameter set is one the builder
+   can produce.  apps_total / app_sends_data / app_sends_requests as in C05.v / C13.v / C12.v.
+   WHAT THIS GIVES: every station-local guarantee (C05; the station-local rule sets of C01 C06 C11 C12 C13
+   C15; the hold rule per visit) holds of every station of the composed system, for every N, medium and
+   schedule.  WHAT IT DOES NOT GIVE: the global halves - at most one token holder, no two transmissions
+   overlapping on the medium, rotation order and rotation time of the N-station ring; those remain with the
+   bus-level monitors above (tests) and the conditional theorems C01_compose / C13_rotation_bound_stations
+   (whose per-station hypothesis `station_history` is discharged by C13_multi_station_history below). *)
+From PB Require Import Fdl FdlOracle FdlProofs C05Proofs C01Proofs C06Proofs C13Proofs C15Proofs C13Visits.
+From PB Require Import FdlOracleSound1 FdlOracleSound5 FdlOracleSound11 Multi MultiProofs.
+
+(* (a) C05 for the composed system: it can be created and the run returns `Ok tt` - no station reaches a
+   panic site or exhausts a loop bound - and every station satisfies Rep afterwards. *)
+Theorem C05_multi_never_panics : forall (A : Type) (ops : app_ops A) (M : medium),
+  medium_bytes M -> apps_total A ops ->
+  forall (cfg : list (params * list A)) (sc : schedule), cfg_valid A cfg -> sched_time_ok sc ->
+  exists s0 s', multi_init A cfg = Ok s0 /\ multi_run A ops M s0 sc = (s', Ok tt) /\
+    forall i st, nth_error (sys_st s') i = Some st -> Rep (length (st_apps st)) (st_f st).
+Proof. exact multi_run_never_panics. Qed.
+Print Assumptions C05_multi_never_panics.
+
+(* (b) NO hypotheses: whatever the medium and the schedule do, and whether or not a call panics, the
+   transcript of station i of the composed system IS the single-station model transcript of the i-th
+   configured station under the inputs it was given (station_inputs: its API calls and, per poll, time,
+   busy flag and new bytes as supplied by the medium), and every poll record of its log is a poll of the
+   single-station model. *)
+Theorem Multi_station_transcripts : forall (A : Type) (ops : app_ops A) (M : medium)
+    (cfg : list (params * list A)) (s0 : sys A) (sc : schedule) (s' : sys A) (r : res unit),
+  multi_init A cfg = Ok s0 -> multi_run A ops M s0 sc = (s', r) ->
+  forall i st, nth_error (sys_st s') i = Some st ->
+  nth_error cfg i = Some (st_p st, st_apps0 st) /\
+  transcript st = model_transcript A ops (st_p st) (st_apps0 st) (station_inputs st) /\
+  Forall (rec_poll A ops) (st_log st) /\ fdl_new (st_p st) = Ok (st_f0 st).
+Proof. exact multi_run_station_transcripts. Qed.
+Print Assumptions Multi_station_transcripts.
+
+(* ... and these inputs are admissible in the sense of the single-station soundness theorems (ins_ok). *)
+Theorem Multi_station_inputs_ok : forall (A : Type) (ops : app_ops A) (M : medium), medium_bytes M ->
+  forall (cfg : list (params * list A)) (s0 : sys A) (sc : schedule) (s' : sys A) (r : res unit),
+  multi_init A cfg = Ok s0 -> sched_ok (fun _ => 0) sc -> multi_run A ops M s0 sc = (s', r) ->
+  forall i st, nth_error (sys_st s') i = Some st -> ins_ok 0 (station_inputs st).
+Proof. exact multi_run_station_inputs_ok. Qed.
+Print Assumptions Multi_station_inputs_ok.
+
+(* (c) The executable per-station monitors of Model/FdlOracle.v (all rules of C01 C05 C06 C11 C12 C13 C15)
+   report NOTHING on any station of the composed system. *)
+Theorem Multi_monitors_silent : forall (A : Type) (ops : app_ops A) (M : medium),
+  medium_bytes M -> apps_total A ops -> app_sends_data A ops ->
+  forall (cfg : list (params * list A)) (s0 : sys A) (sc : schedule) (s' : sys A) (r : res unit),
+  app_sends_requests A ops -> cfg_valid A cfg -> sched_ok (fun _ => 0) sc ->
+  multi_init A cfg = Ok s0 -> multi_run A ops M s0 sc = (s', r) ->
+  forall i st, nth_error (sys_st s') i = Some st ->
+  monitor (st_p st) (length (st_apps0 st)) (transcript st) = [].
+Proof. exact multi_monitors_silent. Qed.
+Print Assumptions Multi_monitors_silent.
+
+(* without app_sends_requests: nothing but rules of C12 (the status-reply rules) can be reported - in
+   particular no rule of C01, C06, C13 *)
+Theorem Multi_monitors_c01_c06_c13 : forall (A : Type) (ops : app_ops A) (M : medium),
+  medium_bytes M -> apps_total A ops -> app_sends_data A ops ->
+  forall (cfg : list (params * list A)) (s0 : sys A) (sc : schedule) (s' : sys A) (r : res unit),
+  cfg_valid A cfg -> sched_ok (fun _ => 0) sc ->
+  multi_init A cfg = Ok s0 -> multi_run A ops M s0 sc = (s', r) ->
+  forall i st, nth_error (sys_st s') i = Some st ->
+  forall k rl, In (k, rl) (monitor (st_p st) (length (st_apps0 st)) (transcript st)) -> rule_prop rl = PC12.
+Proof. exact multi_monitors_but_c12. Qed.
+Print Assumptions Multi_monitors_c01_c06_c13.
+
+(* with total applications only (they may put anything on the wire): no rule of C01, none of C05 *)
+Theorem Multi_monitors_c01_c05 : forall (A : Type) (ops : app_ops A) (M : medium),
+  medium_bytes M -> apps_total A ops ->
+  forall (cfg : list (params * list A)) (s0 : sys A) (sc : schedule) (s' : sys A) (r : res unit),
+  cfg_valid A cfg -> sched_ok (fun _ => 0) sc ->
+  multi_init A cfg = Ok s0 -> multi_run A ops M s0 sc = (s', r) ->
+  forall i st, nth_error (sys_st s') i = Some st ->
+  forall k rl, In (k, rl) (monitor (st_p st) (length (st_apps0 st)) (transcript st)) ->
+  rule_prop rl <> PC01 /\ rule_prop rl <> PC05.
+Proof. exact multi_monitors_c01_c05. Qed.
+Print Assumptions Multi_monitors_c01_c05.
+
+(* (d) C01, station-local half, per poll of the composed system.  NO hypotheses: a station hands something
+   to its PHY only in a poll in which the medium reported its transmitter idle and in which its
+   last_bus_activity (latest RX growth, received telegram, or predicted end of its own transmission it has
+   recorded) is more than 33 bit times in the past. *)
+Theorem C01_multi_sync_pause : forall (A : Type) (ops : app_ops A) (M : medium)
+    (cfg : list (params * list A)) (s0 : sys A) (sc : schedule) (s' : sys A) (r : res unit),
+  multi_init A cfg = Ok s0 -> multi_run A ops M s0 sc = (s', r) ->
+  forall i st, nth_error (sys_st s') i = Some st ->
+  forall now busy nb rxb f f' o calls wire,
+  In (SPoll now busy nb rxb f f' o calls) (st_log st) -> tx o = Some wire ->
+  busy = false /\ exists l, f_lba f = Some l /\ l + p_bits_to_time (f_p f) sync_pause_bits < now.
+Proof. exact multi_c01_sync_pause. Qed.
+Print Assumptions C01_multi_sync_pause.
+
+(* ... and (hypotheses of C05_multi_never_panics) the station is then entitled in its own view:
+   `may_transmit` is the disjunction of C01_who_may_transmit. *)
+Theorem C01_multi_who_may_transmit : forall (A : Type) (ops : app_ops A) (M : medium)
+    (cfg : list (params * list A)) (s0 : sys A) (sc : schedule) (s' : sys A) (r : res unit),
+  medium_bytes M -> apps_total A ops -> cfg_valid A cfg -> sched_time_ok sc ->
+  multi_init A cfg = Ok s0 -> multi_run A ops M s0 sc = (s', r) ->
+  forall i st, nth_error (sys_st s') i = Some st ->
+  forall now busy nb rxb f f' o calls wire,
+  In (SPoll now busy nb rxb f f' o calls) (st_log st) -> tx o = Some wire ->
+  f_p f = st_p st /\ may_transmit f now.
+Proof. exact multi_c01_who_may_transmit. Qed.
+Print Assumptions C01_multi_who_may_transmit.
+
+(* (d) C13, station-local half.  NO hypotheses: the hold rule per poll (C13_hold_rule_poll). *)
+Theorem C13_multi_hold_rule : forall (A : Type) (ops : app_ops A) (M : medium)
+    (cfg : list (params * list A)) (s0 : sys A) (sc : schedule) (s' : sys A) (r : res unit),
+  multi_init A cfg = Ok s0 -> multi_run A ops M s0 sc = (s', r) ->
+  forall i st, nth_error (sys_st s') i = Some st ->
+  forall now busy nb rxb f f' o calls,
+  In (SPoll now busy nb rxb f f' o calls) (st_log st) ->
+  exists hp, Forall (prio_of hp) calls /\
+    (asks calls ->
+     if hp then (exists tk fa, f_state f = UseToken tk fa false) /\ f_end_tht f' <= now
+     else now < f_end_tht f').
+Proof. exact multi_c13_hold_rule. Qed.
+Print Assumptions C13_multi_hold_rule.
+
+(* The history of every station of a composed run that returned (station_hitems: callbacks and state after
+   each poll, HReset per set_offline, read off the log) is a `station_history` - the per-station
+   hypothesis of C13_rotation_bound_stations is discharged by the composed model ... *)
+Theorem C13_multi_station_history : forall (A : Type) (ops : app_ops A) (M : medium)
+    (cfg : list (params * list A)) (s0 : sys A) (sc : schedule) (s' : sys A),
+  medium_bytes M -> sched_ok (fun _ => 0) sc ->
+  multi_init A cfg = Ok s0 -> multi_run A ops M s0 sc = (s', Ok tt) ->
+  forall i st, nth_error (sys_st s') i = Some st ->
+  C15Proofs.run A ops (st_f0 st) (st_apps0 st) (station_events A st) = Ok (st_f st, st_apps st, station_hitems A st) /\
+  station_history (st_p st) (station_hitems A st).
+Proof. exact multi_c13_station_history. Qed.
+Print Assumptions C13_multi_station_history.
+
+(* ... and every token visit of every station obeys the hold rule (sv_ok: C13_station_visits_ok), consecutive
+   visits are linked (C13_visits_linked). *)
+Theorem C13_multi_visits_ok : forall (A : Type) (ops : app_ops A) (M : medium)
+    (cfg : list (params * list A)) (s0 : sys A) (sc : schedule) (s' : sys A),
+  medium_bytes M -> cfg_valid A cfg -> sched_ok (fun _ => 0) sc ->
+  multi_init A cfg = Ok s0 -> multi_run A ops M s0 sc = (s', Ok tt) ->
+  forall i st, nth_error (sys_st s') i = Some st ->
+  Forall (sv_ok (token_rotation_time (st_p st))) (visits_of (station_hitems A st)) /\
+  linked (visits_of (station_hitems A st)).
+Proof. exact multi_c13_visits_ok. Qed.
+Print Assumptions C13_multi_visits_ok.
+
+(* (d) C06, station-local half: a station of the composed system enters ClaimToken only after its own
+   time-out of silence (6 + 2 TS) Tslot, with no new receive bytes in that poll ... *)
+Theorem C06_multi_claim_needs_silence : forall (A : Type) (ops : app_ops A) (M : medium)
+    (cfg : list (params * list A)) (s0 : sys A) (sc : schedule) (s' : sys A) (r : res unit),
+  medium_bytes M -> apps_total A ops -> cfg_valid A cfg -> sched_time_ok sc ->
+  multi_init A cfg = Ok s0 -> multi_run A ops M s0 sc = (s', r) ->
+  forall i st, nth_error (sys_st s') i = Some st ->
+  forall now busy nb rxb f f' o calls,
+  In (SPoll now busy nb rxb f f' o calls) (st_log st) ->
+  kind_of (f_state f) <> KClaimToken -> kind_of (f_state f') = KClaimToken ->
+  (length rxb <= f_pending f)%nat /\
+  exists l, f_lba f = Some l /\ l < now /\ token_lost_timeout (st_p st) <= now - l.
+Proof. exact multi_c06_claim_needs_silence. Qed.
+Print Assumptions C06_multi_claim_needs_silence.
+
+(* ... and (NO hypotheses) a station waiting for an answer that finds any other complete telegram - e.g.
+   another station's token - gives the token up in that poll (C06_backoff). *)
+Theorem C06_multi_backoff : forall (A : Type) (ops : app_ops A) (M : medium)
+    (cfg : list (params * list A)) (s0 : sys A) (sc : schedule) (s' : sys A) (r : res unit),
+  multi_init A cfg = Ok s0 -> multi_run A ops M s0 sc = (s', r) ->
+  forall i st, nth_error (sys_st s') i = Some st ->
+  forall now busy nb rxb f f' o calls t n,
+  In (SPoll now busy nb rxb f f' o calls) (st_log st) ->
+  unexpected_for f t -> busy = false -> C11Proofs.predicted f now = false ->
+  DecodeSpec.decode_spec rxb = Accept t n ->
+  f_state f' = ActiveIdle None None 0 /\ o = mkPhyOut None (skipn n rxb) /\ calls = [] /\ f_ring f' = f_ring f.
+Proof. exact multi_c06_backoff. Qed.
+Print Assumptions C06_multi_backoff.
+
+(* non-vacuity: the concrete medium `ideal_medium rate` (byte timing of harness/src/bus.rs) delivers octets;
+   the two-station example of Model/Multi.v (Multi.ex2_token_exchange: the stations exchange the token;
+   Multi.ex2_monitors_silent: the executable monitors accept both transcripts) satisfies every hypothesis. *)
+Theorem Multi_ideal_medium_bytes : forall rate : Z, medium_bytes (ideal_medium rate).
+Proof. exact ideal_medium_bytes. Qed.
+Print Assumptions Multi_ideal_medium_bytes.
+
+Example Multi_hypotheses_satisfiable :
+  cfg_valid unit ex2_cfg /\ sched_ok (fun _ => 0) (ex2_schedule 300) /\ apps_total unit unit_app_ops /\
+  medium_bytes (ideal_medium 500000).
+Proof. exact ex2_hypotheses. Qed.
